@@ -1,7 +1,7 @@
 #!/usr/bin/env python3
 """dev helper: build the Verus file for one generated.rs and run verus.
 usage: dev.py <generated.rs> <out.rs> [--annotate] [verus args...]"""
-import sys, os, subprocess, json
+import sys, os, subprocess, json, re
 sys.path.insert(0, os.path.dirname(os.path.abspath(__file__)))
 import assemble
 from extract import Lost
@@ -18,6 +18,9 @@ try:
     txt = assemble.build(open(gen).read(), sc, annotate=ann, report=rep)
 except Lost as e:
     print("LOST:", e); sys.exit(2)
+if "--skeleton-only" in rest:
+    rest.remove("--skeleton-only")
+    txt = re.sub(r"(?m)^(\s*)fn (rule_\w+)(<|\()", r"\1#[verifier::external_body] fn \2\3", txt)
 open(out, "w").write(txt)
 r = subprocess.run(["verus", out, "--triggers-mode", "silent"] + rest)
 sys.exit(r.returncode)
